@@ -10,6 +10,8 @@ import (
 	"fmt"
 	"net/http"
 	"net/http/httptest"
+	"os"
+	"path/filepath"
 	"sort"
 	"strings"
 	"sync"
@@ -316,6 +318,125 @@ func vfC07DrmPackages(t *testing.T, r *rep.R) {
 		}(g)
 	}
 	wg.Wait()
+}
+
+// TestVerifC07X – history independence across processes. The same table of requests is answered by two separate processes, once in
+// table order and once in reverse. The table is made collision-prone on purpose: a handful of instants shared by all assets, many of
+// which share representation ids, under many configurations - so that process-wide state keyed too coarsely (by representation id,
+// by instant, by URL path without its configuration ...) is filled by a different request in each process. The second process compares
+// its answers with the table the first one wrote.
+func TestVerifC07X(t *testing.T) {
+	r := rep.New("C07")
+	r.Rule("cross-process order independence: case = (request of a collision-prone table: shared instants x assets x configurations x {MPD, init, newest video/audio segment, generated subtitle segment}); class = (asset, configuration kind, request kind); counted when the answer of the process that went through the table in reverse was compared with the answer of the process that went through it forwards")
+	defer func() { r.Done(); t.Log(r.Summary()) }()
+	vfInitLog()
+	order := os.Getenv("VERIF_C07X_ORDER")
+	scratch := os.Getenv("VERIF_SCRATCH")
+	if order == "" || scratch == "" {
+		r.Inconclusive("c07x-not-configured")
+		return
+	}
+	s := vfNewServer(t, ServerConfig{VodRoot: vfBundledVod(), DrmCfgFile: vfRepoRoot() + "/pkg/drm/testdata/drm_config_test.json"})
+	type q struct{ Asset, Cfg, Kind, URL string }
+	var tab []q
+	instants := []int64{120_000, 120_500, 3_600_000, 1_700_000_040_000}
+	if r.Thorough() {
+		instants = append(instants, 90_000, 600_250, 86_400_000, 1_700_000_070_500)
+	}
+	cfgs := []string{"", "start_30", "snr_3", "tsbd_20", "segtimeline_1", "segtimelinenr_1/tsbd_20", "ato_1.000", "periods_60", "scte35_1",
+		"statuscode_[{cycle:30,rsq:0,code:404}]", "timesubswvtt_en", "timesubsstpp_en,sv", "eccp_cbcs", "drm_EZDRM-1-key-cbcs-test", "patch_60/segtimeline_1", "startrel_-20"}
+	for _, ar := range vfBundledAssets {
+		a, err := ora.LoadAsset(vfBundledVod(), ar.Path, ar.MPD, false)
+		if err != nil || a.Ref.ContentType != "video" {
+			continue
+		}
+		segMS := a.LoopMS / int64(a.Ref.N())
+		for _, tm := range instants {
+			for _, cfg := range cfgs {
+				if cfg == "periods_60" && 60000%segMS != 0 {
+					continue
+				}
+				st := int64(0)
+				if cfg == "start_30" {
+					st = 30
+				}
+				if tm/1000 < st+3*segMS/1000+20 {
+					continue
+				}
+				tab = append(tab, q{ar.Path, cfg, "mpd", vfURL(cfg, ar.Path, ar.MPD, tm)})
+				if strings.HasPrefix(cfg, "startrel") || strings.HasPrefix(cfg, "patch") {
+					continue
+				}
+				n := a.NewestAvail(a.Ref, tm, st, 0)
+				if n < 1 {
+					continue
+				}
+				snr := int64(0)
+				if cfg == "snr_3" {
+					snr = 3
+				}
+				for _, id := range a.RepIDs {
+					rp := a.Reps[id]
+					if rp.ContentType == "image" || (rp.ContentType == "audio" && rp.SampleDur == 0) {
+						continue
+					}
+					tab = append(tab, q{ar.Path, cfg, "init", vfURL(cfg, ar.Path, rp.InitPath, tm)})
+					if !strings.HasPrefix(cfg, "segtimeline_1") {
+						tab = append(tab, q{ar.Path, cfg, "media-" + rp.ContentType, vfURL(cfg, ar.Path, vfMediaURL(rp, uint64(snr+n)), tm)})
+					}
+				}
+				if cfg == "timesubswvtt_en" {
+					tab = append(tab, q{ar.Path, cfg, "timesubs", vfURL(cfg, ar.Path, fmt.Sprintf("timewvtt-en/%d.m4s", n), tm)})
+				}
+				if cfg == "timesubsstpp_en,sv" {
+					tab = append(tab, q{ar.Path, cfg, "timesubs", vfURL(cfg, ar.Path, fmt.Sprintf("timestpp-sv/%d.m4s", n), tm)})
+				}
+			}
+		}
+	}
+	idx := make([]int, len(tab))
+	for i := range idx {
+		idx[i] = i
+		if order == "rev" {
+			idx[i] = len(tab) - 1 - i
+		}
+	}
+	ans := make([]string, len(tab))
+	for _, i := range idx {
+		a := vfAnswer(s, vfReq{"GET", tab[i].URL, "", tab[i].Kind})
+		ans[i] = fmt.Sprintf("%+v", a)
+		r.Eval(1)
+	}
+	fwdFile := filepath.Join(scratch, "c07x_fwd.json")
+	if order == "fwd" {
+		b, _ := json.Marshal(ans)
+		if err := os.WriteFile(fwdFile, b, 0644); err != nil {
+			t.Fatal(err)
+		}
+		for _, x := range tab {
+			r.Class(fmt.Sprintf("x-process|answered-forwards|%s", x.Kind))
+		}
+		r.Sample(map[string]any{"kind": "cross-process table", "requests": len(tab), "first": tab[0].URL, "answer": ans[0]})
+		return
+	}
+	b, err := os.ReadFile(fwdFile)
+	var fwd []string
+	if err != nil || json.Unmarshal(b, &fwd) != nil || len(fwd) != len(tab) {
+		r.Inconclusive("c07x-forward-table-missing")
+		return
+	}
+	for i, x := range tab {
+		if fwd[i] != ans[i] {
+			kind := strings.SplitN(x.Cfg, "_", 2)[0]
+			r.Violation("x-process:answer-depends-on-the-order-of-earlier-requests:"+x.Kind+":"+kind, map[string]any{"url": x.URL, "answer_in_table_order": fwd[i], "answer_in_reverse_order": ans[i]})
+			continue
+		}
+		r.Class(fmt.Sprintf("x-process|%s|%s|%s", x.Asset, strings.SplitN(x.Cfg, "_", 2)[0], x.Kind))
+	}
+	r.Sample(map[string]any{"kind": "cross-process comparison", "requests": len(tab), "last": tab[len(tab)-1].URL, "answer": ans[len(tab)-1]})
+	if r.NViolations() > 0 {
+		t.Fail()
+	}
 }
 
 type vfAPIIn struct {
